@@ -89,6 +89,21 @@ func (f *GoField) MarshalJSON() ([]byte, error) {
 	})
 }
 
+// setField stores a Go value produced by a field's converter in that field.
+func setField(field reflect.Value, value interface{}) {
+	v := valueOrZero(value, field.Type())
+	// A field that holds a struct by value uses the converter for a pointer
+	// to that struct (see newGoField), so store what the pointer refers to.
+	if field.Kind() == reflect.Struct && v.Kind() == reflect.Pointer {
+		if v.IsNil() {
+			v = reflect.Zero(field.Type())
+		} else {
+			v = v.Elem()
+		}
+	}
+	field.Set(v)
+}
+
 func newGoField(f reflect.StructField) (*GoField, error) {
 	typ := f.Type
 	if f.Type.Kind() == reflect.Struct {
